@@ -18,6 +18,11 @@ from . import common
 WATCHDOG = {'quick': 900, 'thorough': 4 * 3600}
 
 
+def EVID():
+    """Evidence directory; VF_EVIDENCE_DIR redirects it for trial runs against scratch copies (seeded changes)."""
+    return os.environ.get('VF_EVIDENCE_DIR') or os.path.join(common.VF_HOME, 'evidence')
+
+
 def load(prop):
     return importlib.import_module(f'vf.props.{prop.lower()}')
 
@@ -94,7 +99,7 @@ def orchestrate(args):
     for v in agg['violations']:
         by_mech.setdefault(v['mech'], []).append(v)
     new, listed = [], []
-    rep_dir = os.path.join(common.VF_HOME, 'evidence', 'replays')
+    rep_dir = os.path.join(EVID(), 'replays')
     os.makedirs(rep_dir, exist_ok=True)
     for mech, vs in sorted(by_mech.items()):
         if (prop, mech) in known:
@@ -128,7 +133,7 @@ def orchestrate(args):
         cov['exhaustive_parts'] = mod.EXHAUSTIVE
     ev = {'property_id': prop, 'tier': tier, 'seed': seed, 'level': mod.LEVEL, 'coverage': cov,
           'assumptions': mod.ASSUMPTIONS, 'wall_s': round(wall, 2), 'violations': len(new)}
-    evp = os.path.join(common.VF_HOME, 'evidence', f'{prop}.json')
+    evp = os.path.join(EVID(), f'{prop}.json')
     with open(evp + '.tmp', 'w') as f:
         json.dump(ev, f, indent=1, default=repr)
     os.replace(evp + '.tmp', evp)
